@@ -1,5 +1,6 @@
 import Infretis.Model.Proto
 import Infretis.Model.ZeroSwap
+import Infretis.Model.ZeroSwapAlg
 open Infretis Infretis.Proto Infretis.ZeroSwap
 
 /-
@@ -11,8 +12,13 @@ Line protocol of the C11 driver.
   retis    ens0 ens1 list<frame> list<frame> script script xi
   quantis  ens0 ens1 list<frame> list<frame> script script script script acceptAll beta0 beta1 xi p
   retisdet a k n ens0 ens1 list<frame> list<frame> xi       (double-well leap-frog engine, op = x)
+  retisdetv a k n ens0 ens1 list<frame> list<frame> xi      (same engine, order parameter 2x+v of the PHYSICAL phase point)
+  qpaste   list<frame>back list<frame>tmp0 list<frame>tmp1 list<frame>forw maxlen0 maxlen1
+           (the two paste_paths calls of quantis through C15's PathAlg.paste / Path.reverse on a heap)
+  qfields  status                 (spec: status fields of the two paths quantis returns)
+  rtable   s0 s1 wfAny hasAcc     (spec: returned status and [0+] status field of retis_swap_zero)
 answer:
-  accept status st0 st1 w0 w1 draws expArg | list<frame> | list<frame> | list<req>
+  accept status st0 st1 w0 w1 draws expArg | list<frame> | list<frame> | list<req> | at=<requests before the ξ draw or ->
   or err:<kind>
 -/
 
@@ -66,13 +72,21 @@ def takeScript : List String → Option (Script × List String)
 def showErr : Err → String
   | .assert => "err:assert" | .index => "err:index" | .type => "err:type" | .value => "err:value"
 
-def showRes (r : Except Err Result) : String :=
+def showAt : Option Nat → String
+  | none => "at=-" | some n => s!"at={n}"
+
+def parseStatus? (s : String) : Option Status :=
+  [Status.none, .ACC, .BTX, .BTS, .ZL, .FTX, .FTS, .HAS, .QNE, .QLL, .QS0, .QS1, .QEA, .QRS, .QLR, .ZR].find?
+    (fun st => st.str == s)
+
+def showRes (pos : Result → Option Nat) (r : Except Err Result) : String :=
   match r with
   | .error e => showErr e
   | .ok r =>
     let ea := match r.expArg with | none => "-" | some q => showRat q
     s!"{if r.accept then 1 else 0} {r.status.str} {r.st0.str} {r.st1.str} {r.w0} {r.w1} {r.draws} {ea} | " ++
-    showList showFrame r.path0 ++ " | " ++ showList showFrame r.path1 ++ " | " ++ showList showReq r.reqs
+    showList showFrame r.path0 ++ " | " ++ showList showFrame r.path1 ++ " | " ++ showList showReq r.reqs ++
+    " | " ++ showAt (pos r)
 
 def handle (toks : List String) : String :=
   match toks with
@@ -90,7 +104,7 @@ def handle (toks : List String) : String :=
               match takeScript rest with
               | some (fw, [xi]) =>
                 match parseRat? xi with
-                | some xi => showRes (retisSwapZero e0 e1 old0 old1 bw fw xi)
+                | some xi => showRes retisDrawAt (retisSwapZero e0 e1 old0 old1 bw fw xi)
                 | none => "bad-op"
               | _ => "bad-op"
             | none => "bad-op"
@@ -108,11 +122,58 @@ def handle (toks : List String) : String :=
           match takeList parseFrame? rest with
           | some (old1, [xi]) =>
             match parseRat? xi with
-            | some xi => showRes (retisSwapZeroDet (dwStep a k) (·.x) (fun _ => some 0) n e0 e1 old0 old1 xi)
+            | some xi => showRes retisDrawAt (retisSwapZeroDet (dwStep a k) (·.x) (fun _ => some 0) n e0 e1 old0 old1 xi)
             | none => "bad-op"
           | _ => "bad-op"
         | none => "bad-op"
       | none => "bad-op"
+    | _, _, _, _ => "bad-op"
+  | "retisdetv" :: a :: k :: n :: rest =>
+    match parseInt? a, parseInt? k, parseNat? n, takeEns rest with
+    | some a, some k, some n, some (e0, rest) =>
+      match takeEns rest with
+      | some (e1, rest) =>
+        match takeList parseFrame? rest with
+        | some (old0, rest) =>
+          match takeList parseFrame? rest with
+          | some (old1, [xi]) =>
+            match parseRat? xi with
+            | some xi => showRes retisDrawAt
+                (retisSwapZeroDetV (dwStep a k) (fun c => 2 * c.x + c.v) (fun _ => some 0) n e0 e1 old0 old1 xi)
+            | none => "bad-op"
+          | _ => "bad-op"
+        | none => "bad-op"
+      | none => "bad-op"
+    | _, _, _, _ => "bad-op"
+  | "qpaste" :: rest =>
+    match takeList parseFrame? rest with
+    | some (back, rest) =>
+      match takeList parseFrame? rest with
+      | some (tmp0, rest) =>
+        match takeList parseFrame? rest with
+        | some (tmp1, rest) =>
+          match takeList parseFrame? rest with
+          | some (forw, [m0, m1]) =>
+            match parseNat? m0, parseNat? m1 with
+            | some m0, some m1 =>
+              match quantisPasteRun back tmp0 tmp1 forw m0 m1 with
+              | some ((f0, t0), (f1, t1)) =>
+                showList showFrame f0 ++ s!" {t0} | " ++ showList showFrame f1 ++ s!" {t1}"
+              | none => "none"
+            | _, _ => "bad-op"
+          | _ => "bad-op"
+        | none => "bad-op"
+      | none => "bad-op"
+    | none => "bad-op"
+  | ["qfields", st] =>
+    match parseStatus? st with
+    | some st => let f := quantisFields st; s!"{f.1.str} {f.2.str}"
+    | none => "bad-op"
+  | ["rtable", s0, s1, wf, a] =>
+    match parseStatus? s0, parseStatus? s1, parseBool? wf, parseBool? a with
+    | some s0, some s1, some wf, some a =>
+      let t := retisTable s0 s1 wf a
+      s!"{t.str} {(retisField1 s1 t).str}"
     | _, _, _, _ => "bad-op"
   | "quantis" :: rest =>
     match takeEns rest with
@@ -133,7 +194,7 @@ def handle (toks : List String) : String :=
                   | some (sd, [aa, b0, b1, xi, p]) =>
                     match parseBool? aa, parseRat? b0, parseRat? b1, parseRat? xi, parseRat? p with
                     | some aa, some b0, some b1, some xi, some p =>
-                      showRes (quantisSwapZero e0 e1 old0 old1 sa sb sc sd aa b0 b1 xi p)
+                      showRes quantisDrawAt (quantisSwapZero e0 e1 old0 old1 sa sb sc sd aa b0 b1 xi p)
                     | _, _, _, _, _ => "bad-op"
                   | _ => "bad-op"
                 | none => "bad-op"
